@@ -1,0 +1,35 @@
+//go:build verif
+
+// Machine-checked contracts for this package (comment-only; compiled only with -tags verif,
+// and even then contributes no code).  Read by /verif/govc; see /verif/DESIGN.md.
+
+package rules
+
+//@ -- ---------------------------------------------------------------- C37: chain names
+//@ -- chain-name prefixes: each class of chain has its own prefix; prefixes of one family have equal length
+//@ -- (so names of different classes cannot collide) and leave room for the marker and at least one hash character
+//@ layout policyPrefixes: PolicyInboundPfx != PolicyOutboundPfx && strlen(PolicyInboundPfx) == strlen(PolicyOutboundPfx) && strlen(PolicyInboundPfx) + 2 <= iptables.MaxChainNameLength
+//@   property C37
+//@ layout profilePrefixes: ProfileInboundPfx != ProfileOutboundPfx && strlen(ProfileInboundPfx) == strlen(ProfileOutboundPfx) && strlen(ProfileInboundPfx) + 2 <= iptables.MaxChainNameLength
+//@   property C37
+//@ layout groupPrefixes: PolicyGroupInboundPrefix != PolicyGroupOutboundPrefix && strlen(PolicyGroupInboundPrefix) == strlen(PolicyGroupOutboundPrefix)
+//@   property C37
+//@ layout endpointPrefixes: WorkloadToEndpointPfx != WorkloadFromEndpointPfx && strlen(WorkloadToEndpointPfx) == strlen(WorkloadFromEndpointPfx) && strlen(WorkloadToEndpointPfx) + 2 <= iptables.MaxChainNameLength
+//@   property C37
+//@ layout chainLimits: iptables.MaxChainNameLength == 28 && nftables.MaxChainNameLength == 256
+//@   property C37
+
+//@ -- the wrappers hand (prefix, identity, limit of the chosen dataplane) to the shortening function unchanged
+//@ func EndpointChainName
+//@   property C37
+//@   option mathint
+//@   requires len(prefix) + 2 <= maxLen
+//@   ghost at call GetLengthLimitedID: check fixedPrefix == prefix && suffix == ifaceName && maxLength == maxLen
+//@   ensures len(res) <= maxLen && hasPrefix(res, prefix)
+
+//@ func ProfileChainName
+//@   property C37
+//@   option mathint
+//@   requires profID != nil && len(string(prefix)) + 2 <= 28
+//@   ghost at call GetLengthLimitedID: check fixedPrefix == string(prefix) && suffix == profID.Name && maxLength == (nft ? 256 : 28)
+//@   ensures len(res) <= (nft ? 256 : 28) && hasPrefix(res, string(prefix))
